@@ -50,3 +50,13 @@ package layout
 //@   property C15
 //@   flags callsites
 //@   callsite strings.Repeat(s, count) requires level_1_to_6: s == "#" ==> 1 <= count && count <= 6
+
+// ---- C11: "repeats at that position": a group counts as consistently positioned only if every member lies within
+// the tolerances of ONE reference position (so tolerance cannot accumulate from page to page) ----
+//@ func (*HeaderFooterDetector) hasConsistentPosition results (r)
+//@   property C11
+//@   flags readonly
+//@   ensures within_tolerance_of_first: r ==> len(group) >= 2 && forall k int :: {group[k]} 0 <= k && k < len(group) ==> abs(group[k].Y - group[0].Y) <= d.config.PositionTolerance && abs(group[k].X - group[0].X) <= d.config.XPositionTolerance
+//@   loop 0:
+//@     invariant refY == group[0].Y && refX == group[0].X && len(group) >= 2
+//@     invariant forall k int :: {group[k]} 1 <= k && k < $i + 1 ==> abs(group[k].Y - group[0].Y) <= d.config.PositionTolerance && abs(group[k].X - group[0].X) <= d.config.XPositionTolerance
